@@ -321,11 +321,12 @@ func gen(c *lcase, n int) (*prog, error) {
 		}
 		w("\tprint(h)\n}\n")
 	case "jumps":
-		// n conditional blocks in one body: n distinct forward jump targets over the whole address range
+		// n if-else blocks in one body, the else branch taken every time: n distinct forward jump
+		// targets spread over the whole address range of a long function body
 		head()
 		w("func main() {\n\th := 0\n")
 		for i := 1; i <= n; i++ {
-			w("\t{ if h >= 0 { %s } }\n", c.fold(strconv.Itoa(c.v(i))))
+			w("\t{ if h < 0 { h = 7 } else { %s } }\n", c.fold(strconv.Itoa(c.v(i))))
 		}
 		w("\tprint(h)\n}\n")
 	case "tmplstringconsts":
